@@ -13,8 +13,8 @@ OrderScripts == {<<W(0, 100000)>>, <<F("err")>>, <<F("noid")>>, <<F("empty")>>}
 (* renewal timeline: initial window, <= K failures, renewed window (then a long-lived certificate) *)
 TimeScripts(Ws, W2s, Fs, K) == {<<w1>> \o fs \o <<w2>> : w1 \in Ws, w2 \in W2s, fs \in SeqsLE(Fs, K)}
                           \cup {<<F(k)>> : k \in {"err", "noid", "empty"}}
-(* validity windows: 2 s, 4 s, 120 s, already past half-life (issued 200 s into a 400 s validity), not yet valid *)
-WinSmall == {W(0, 2), W(0, 4), W(0, 120), W(-200, 200), W(20, 100)}
+(* validity windows: 2 s, 3 s (half-life at 1.5 s), 120 s, already past half-life (issued 200 s into a 400 s validity), not yet valid *)
+WinSmall == {W(0, 2), W(0, 3), W(0, 120), W(-200, 200), W(20, 100)}
 WinBig   == WinSmall \cup {W(0, 7200), W(-7200, 7200)}
 Fails == {F("err"), F("noid"), F("empty")}
 ScriptsSmall == TimeScripts(WinSmall, WinSmall, Fails, 2)
